@@ -105,6 +105,25 @@ def step (bl : Blobs) : List String → Blobs × String
         | none => (bl, m)
         | some bin => (bl, m ++ "|" ++ parseLine (stubExt (known d raws)) fcbSup d.segs bin)
     | _, _, _, _ => (bl, "bad-op")
+  -- rtany <fcbSup> <init request> <own index> <n> <layout_1> … <layout_n> <tok>* : export with the own layout, parse trying all layouts
+  | "rtany" :: fs :: r :: own :: n :: rest =>
+    match parseBool fs, r.toInt?, own.toNat?, n.toNat? with
+    | some fcbSup, some req, some own, some n =>
+      let ls := (rest.take n).filterMap (fun x => (getLayout x).map (·.1))
+      let toks := rest.drop n
+      if ls.length ≠ n then (bl, "bad-op") else
+      match ls[own]?, lookupToks bl toks with
+      | some d, some raws =>
+        if raws.length ≠ d.segs.length then (bl, "bad-op") else
+        match setInit d.segs req with
+        | .error e => (bl, "A:" ++ e.tag)
+        | .ok init => match exportImg d init raws with
+          | .error e => (bl, "A:" ++ e.tag)
+          | .ok bin => match parseAny (stubExt (known d raws)) fcbSup (ls.map (·.segs)) bin with
+            | .error e => (bl, "A:" ++ e.tag)
+            | .ok (i, ini, f) => (bl, s!"A:{i};{ini};" ++ ",".intercalate (f.map foundStr))
+      | _, _ => (bl, "bad-op")
+    | _, _, _, _ => (bl, "bad-op")
   | "parse" :: l :: fs :: binId :: toks => match getLayout l, parseBool fs, bl.get? binId, lookupToks bl toks with
     | some (d, _), some fcbSup, some bin, some raws =>
       if raws.length ≠ d.segs.length then (bl, "bad-op") else
